@@ -1,10 +1,12 @@
-/- Proofs/Info/Aac.lean — totality of the ADTS / ADIF parser (the ten-tries loop only returns a stream with ≥ 3 frames) -/
+/- Proofs/Info/Aac.lean — totality of the ADTS / ADIF parser; bit fields of a big-endian word read through the
+bit-position reader; the ADTS frame loop over a symbolic frame list -/
 import MutagenModel.Proofs.Info.Common
+import MutagenModel.Proofs.Bits
 import MutagenModel.Spec.Info.Aac
 set_option linter.unusedVariables false
 set_option linter.unusedSimpArgs false
 namespace Mutagen.Info.Aac
-open Mutagen Mutagen.Info
+open Mutagen Mutagen.Info Mutagen.Spec.Aac
 
 theorem tries_spec (f : Bytes) (n : Nat) : ∀ offset,
     (∀ e, tries f n offset = .error e → e = .mutagen) ∧
@@ -52,5 +54,336 @@ theorem parse_total (f : Bytes) : ∀ e, parse f = .error e → e = .mutagen := 
   split at he
   · exact parseAdif_total f _ e he
   · exact parseAdts_total f _ e he
+
+
+theorem bytesToBits_append (a b : Bytes) : bytesToBits (a ++ b) = bytesToBits a ++ bytesToBits b := by
+  simp [bytesToBits]
+
+theorem length_bytesToBits (b : Bytes) : (bytesToBits b).length = 8 * b.length := by
+  induction b with
+  | nil => rfl
+  | cons x r ih => rw [bytesToBits_cons, List.length_append, length_natToBits, ih, List.length_cons]; omega
+
+theorem bytesToBits_drop (b : Bytes) : ∀ i, bytesToBits (b.drop i) = (bytesToBits b).drop (8 * i) := by
+  induction b with
+  | nil => intro i; simp [bytesToBits]
+  | cons x r ih =>
+    intro i
+    cases i with
+    | zero => simp
+    | succ i =>
+      have h1 : (natToBits 8 x.toNat).drop (8 * (i + 1)) = [] :=
+        List.drop_of_length_le (by rw [length_natToBits]; omega)
+      rw [List.drop_succ_cons, ih i, bytesToBits_cons, List.drop_append, h1, length_natToBits, List.nil_append]
+      congr 1
+
+theorem bytesToBits_take (b : Bytes) : ∀ m, bytesToBits (b.take m) = (bytesToBits b).take (8 * m) := by
+  induction b with
+  | nil => intro m; simp [bytesToBits]
+  | cons x r ih =>
+    intro m
+    cases m with
+    | zero => simp [bytesToBits]
+    | succ m =>
+      have h1 : (natToBits 8 x.toNat).take (8 * (m + 1)) = natToBits 8 x.toNat :=
+        List.take_of_length_le (by rw [length_natToBits]; omega)
+      rw [List.take_succ_cons, bytesToBits_cons, bytesToBits_cons, ih m, List.take_append, h1, length_natToBits]
+      congr 2
+
+/-- the windowed `bitsAt` of the model reads the same bits as unpacking the whole file -/
+theorem bitsAt_eq (f : Bytes) (q n : Nat) : bitsAt f q n = bitsToNat (((bytesToBits f).drop q).take n) := by
+  unfold bitsAt readAt
+  rw [bytesToBits_take, bytesToBits_drop, List.drop_take, List.take_take, List.drop_drop]
+  congr 2
+  · omega
+  · congr 1; omega
+
+theorem natToBits_add (a b v : Nat) : natToBits (a + b) v = natToBits a (v / 2 ^ b) ++ natToBits b v := by
+  induction a with
+  | zero => simp [natToBits]
+  | succ a ih =>
+    rw [show a + 1 + b = (a + b) + 1 by omega]
+    simp only [natToBits, List.cons_append, ih]
+    congr 2
+    rw [Nat.div_div_eq_div_mul, ← Nat.pow_add, Nat.add_comm]
+
+theorem bytesToBits_toBE (k H : Nat) : bytesToBits (toBE k H) = natToBits (8 * k) H := by
+  induction k generalizing H with
+  | zero => rfl
+  | succ k ih =>
+    have h1 : toBE (k + 1) H = toBE k (H / 256) ++ [UInt8.ofNat (H % 256)] := by
+      simp [toBE, toLE]
+    rw [h1, bytesToBits_append, ih, show 8 * (k + 1) = 8 * k + 8 by omega, natToBits_add]
+    congr 1
+    simp only [bytesToBits, List.flatMap_cons, List.flatMap_nil, List.append_nil]
+    have : (UInt8.ofNat (H % 256)).toNat = H % 256 := by simp [UInt8.toNat_ofNat']
+    rw [this]
+    exact natToBits_mod 8 0 H
+
+/-- a bit field of a big-endian word embedded in the file -/
+theorem bitsAt_word (pre more : Bytes) (k H off w : Nat) (h : off + w ≤ 8 * k) :
+    bitsAt (pre ++ (toBE k H ++ more)) (8 * pre.length + off) w = H / 2 ^ (8 * k - off - w) % 2 ^ w := by
+  rw [bitsAt_eq, bytesToBits_append, bytesToBits_append, bytesToBits_toBE,
+    List.drop_append, List.drop_of_length_le (by rw [length_bytesToBits]; omega), List.nil_append, length_bytesToBits,
+    show 8 * pre.length + off - 8 * pre.length = off by omega]
+  have e1 : natToBits (8 * k) H = natToBits off (H / 2 ^ (8 * k - off)) ++ natToBits (8 * k - off) H := by
+    rw [← natToBits_add]; congr 1; omega
+  have e2 : natToBits (8 * k - off) H = natToBits w (H / 2 ^ (8 * k - off - w)) ++ natToBits (8 * k - off - w) H := by
+    rw [← natToBits_add]; congr 1; omega
+  rw [e1, List.append_assoc, List.drop_append, List.drop_of_length_le (by simp), List.nil_append, length_natToBits,
+    Nat.sub_self, List.drop_zero, e2, List.append_assoc, List.take_append, List.take_of_length_le (by simp),
+    length_natToBits, Nat.sub_self, List.take_zero, List.append_nil, bitsToNat_natToBits_mod]
+
+
+theorem bits_hdr (pre more : Bytes) (W c n : Nat) (hn : 0 < n) (hc : c + n ≤ 56) :
+    R.bits (pre ++ (toBE 7 W ++ more)) ⟨0, 8 * pre.length + c⟩ n =
+      some (W / 2 ^ (56 - c - n) % 2 ^ n, ⟨0, 8 * pre.length + (c + n)⟩) := by
+  unfold R.bits
+  have h0 : ¬ (n = 0) := by omega
+  have hl : 8 * 0 + (8 * pre.length + c) + n ≤ 8 * (pre ++ (toBE 7 W ++ more)).length := by
+    simp only [List.length_append, length_toBE]; omega
+  rw [if_neg h0, if_pos hl, Nat.mul_zero, Nat.zero_add, bitsAt_word pre more 7 W c n (by omega)]
+  simp only [Nat.add_assoc]
+
+theorem skip_hdr (pre more : Bytes) (W c n : Nat) (hc : c + n < 56) :
+    R.skip (pre ++ (toBE 7 W ++ more)) ⟨0, 8 * pre.length + c⟩ n = some ⟨0, 8 * pre.length + (c + n)⟩ := by
+  unfold R.skip
+  have hl : 8 * 0 + (8 * pre.length + c) + n < 8 * (pre ++ (toBE 7 W ++ more)).length := by
+    simp only [List.length_append, length_toBE]; omega
+  rw [if_pos (Or.inr hl)]
+  simp only [Nat.add_assoc]
+
+def keyOf (h : Adts) : List Nat :=
+  [h.id, 0, h.protectionAbsent, h.profile, h.sfIndex, h.privateBit, h.chanConfig, h.original, h.home]
+
+def crcBits (pa nb : Nat) : Nat := if pa = 0 then (if nb ≠ 0 then (nb + 1) * 16 * 2 else (nb + 1) * 16) else 0
+
+theorem parseFrame_frame (h : Adts) (ok : h.OK) (fr : Frame) (hfr : fr.OK h.protectionAbsent) (pre more : Bytes) (s : Stream)
+    (hr : s.r = ⟨0, 8 * pre.length + 12⟩) (hkey : s.key = none ∨ s.key = some (keyOf h)) :
+    parseFrame (pre ++ (frameBytes h fr ++ more)) s =
+      some { s with r := ⟨0, 8 * (pre ++ frameBytes h fr).length⟩, key := some (keyOf h), parsedFrames := s.parsedFrames + 1,
+                    samples := s.samples + (fr.nordbif + 1) * 1024,
+                    payloadBits := s.payloadBits + (8 * (fr.body.length : Int) - crcBits h.protectionAbsent fr.nordbif),
+                    lastBits := 8 * (pre ++ frameBytes h fr).length } := by
+  obtain ⟨hid, hpa, hpr, hsf, hpv, hcc, hor, hho, _, _⟩ := ok
+  obtain ⟨hcb, hbf, hnb, hfl, hcrc⟩ := hfr
+  have hf : pre ++ (frameBytes h fr ++ more) = pre ++ (toBE 7 (headerWord h fr) ++ (fr.body ++ more)) := by
+    simp [frameBytes]
+  generalize hW : headerWord h fr = W at hf
+  have e0 : R.bits (pre ++ (toBE 7 W ++ (fr.body ++ more))) ⟨0, 8 * pre.length + 12⟩ 1 = some (W / 2 ^ 43 % 2 ^ 1, ⟨0, 8 * pre.length + 13⟩) :=
+    bits_hdr pre _ W 12 1 (by decide) (by decide)
+  have e1 : R.bits (pre ++ (toBE 7 W ++ (fr.body ++ more))) ⟨0, 8 * pre.length + 13⟩ 2 = some (W / 2 ^ 41 % 2 ^ 2, ⟨0, 8 * pre.length + 15⟩) :=
+    bits_hdr pre _ W 13 2 (by decide) (by decide)
+  have e2 : R.bits (pre ++ (toBE 7 W ++ (fr.body ++ more))) ⟨0, 8 * pre.length + 15⟩ 1 = some (W / 2 ^ 40 % 2 ^ 1, ⟨0, 8 * pre.length + 16⟩) :=
+    bits_hdr pre _ W 15 1 (by decide) (by decide)
+  have e3 : R.bits (pre ++ (toBE 7 W ++ (fr.body ++ more))) ⟨0, 8 * pre.length + 16⟩ 2 = some (W / 2 ^ 38 % 2 ^ 2, ⟨0, 8 * pre.length + 18⟩) :=
+    bits_hdr pre _ W 16 2 (by decide) (by decide)
+  have e4 : R.bits (pre ++ (toBE 7 W ++ (fr.body ++ more))) ⟨0, 8 * pre.length + 18⟩ 4 = some (W / 2 ^ 34 % 2 ^ 4, ⟨0, 8 * pre.length + 22⟩) :=
+    bits_hdr pre _ W 18 4 (by decide) (by decide)
+  have e5 : R.bits (pre ++ (toBE 7 W ++ (fr.body ++ more))) ⟨0, 8 * pre.length + 22⟩ 1 = some (W / 2 ^ 33 % 2 ^ 1, ⟨0, 8 * pre.length + 23⟩) :=
+    bits_hdr pre _ W 22 1 (by decide) (by decide)
+  have e6 : R.bits (pre ++ (toBE 7 W ++ (fr.body ++ more))) ⟨0, 8 * pre.length + 23⟩ 3 = some (W / 2 ^ 30 % 2 ^ 3, ⟨0, 8 * pre.length + 26⟩) :=
+    bits_hdr pre _ W 23 3 (by decide) (by decide)
+  have e7 : R.bits (pre ++ (toBE 7 W ++ (fr.body ++ more))) ⟨0, 8 * pre.length + 26⟩ 1 = some (W / 2 ^ 29 % 2 ^ 1, ⟨0, 8 * pre.length + 27⟩) :=
+    bits_hdr pre _ W 26 1 (by decide) (by decide)
+  have e8 : R.bits (pre ++ (toBE 7 W ++ (fr.body ++ more))) ⟨0, 8 * pre.length + 27⟩ 1 = some (W / 2 ^ 28 % 2 ^ 1, ⟨0, 8 * pre.length + 28⟩) :=
+    bits_hdr pre _ W 27 1 (by decide) (by decide)
+  have e9 : R.skip (pre ++ (toBE 7 W ++ (fr.body ++ more))) ⟨0, 8 * pre.length + 28⟩ 2 = some ⟨0, 8 * pre.length + 30⟩ :=
+    skip_hdr pre _ W 28 2 (by decide)
+  have e10 : R.bits (pre ++ (toBE 7 W ++ (fr.body ++ more))) ⟨0, 8 * pre.length + 30⟩ 13 = some (W / 2 ^ 13 % 2 ^ 13, ⟨0, 8 * pre.length + 43⟩) :=
+    bits_hdr pre _ W 30 13 (by decide) (by decide)
+  have e11 : R.skip (pre ++ (toBE 7 W ++ (fr.body ++ more))) ⟨0, 8 * pre.length + 43⟩ 11 = some ⟨0, 8 * pre.length + 54⟩ :=
+    skip_hdr pre _ W 43 11 (by decide)
+  have e12 : R.bits (pre ++ (toBE 7 W ++ (fr.body ++ more))) ⟨0, 8 * pre.length + 54⟩ 2 = some (W / 2 ^ 0 % 2 ^ 2, ⟨0, 8 * pre.length + 56⟩) :=
+    bits_hdr pre _ W 54 2 (by decide) (by decide)
+  rw [hf]
+  unfold parseFrame
+  simp only [hr, bind, Option.bind, pure, e0, e1, e2, e3, e4, e5, e6, e7, e8, e9, e10, e11, e12]
+  have w0 : W / 2 ^ 43 % 2 ^ 1 = h.id := by rw [← hW]; unfold headerWord; omega
+  have w1 : W / 2 ^ 41 % 2 ^ 2 = 0 := by rw [← hW]; unfold headerWord; omega
+  have w2 : W / 2 ^ 40 % 2 ^ 1 = h.protectionAbsent := by rw [← hW]; unfold headerWord; omega
+  have w3 : W / 2 ^ 38 % 2 ^ 2 = h.profile := by rw [← hW]; unfold headerWord; omega
+  have w4 : W / 2 ^ 34 % 2 ^ 4 = h.sfIndex := by rw [← hW]; unfold headerWord; omega
+  have w5 : W / 2 ^ 33 % 2 ^ 1 = h.privateBit := by rw [← hW]; unfold headerWord; omega
+  have w6 : W / 2 ^ 30 % 2 ^ 3 = h.chanConfig := by rw [← hW]; unfold headerWord; omega
+  have w7 : W / 2 ^ 29 % 2 ^ 1 = h.original := by rw [← hW]; unfold headerWord; omega
+  have w8 : W / 2 ^ 28 % 2 ^ 1 = h.home := by rw [← hW]; unfold headerWord; omega
+  have w9 : W / 2 ^ 13 % 2 ^ 13 = 7 + fr.body.length := by rw [← hW]; unfold headerWord; omega
+  have w10 : W / 2 ^ 0 % 2 ^ 2 = fr.nordbif := by rw [← hW]; unfold headerWord; omega
+  have hk : ¬ (s.key ≠ none ∧ s.key ≠ some (keyOf h)) := by
+    rcases hkey with hk | hk <;> simp [hk]
+  have hleft : ((7 + fr.body.length : Nat) : Int) * 8 - (((8 * pre.length + 56 : Nat) : Int) - (((8 * pre.length + 12 : Nat) : Int) - 12)) =
+      ((8 * fr.body.length : Nat) : Int) := by omega
+  have hskip : R.skip (pre ++ (toBE 7 W ++ (fr.body ++ more))) ⟨0, 8 * pre.length + 56⟩ (8 * fr.body.length) =
+      some ⟨0, 8 * pre.length + 56 + 8 * fr.body.length⟩ := by
+    unfold R.skip
+    rw [if_pos (Or.inl (by show (8 * pre.length + 56 + 8 * fr.body.length) % 8 = 0; omega))]
+  have hlen : 8 * (pre ++ frameBytes h fr).length = 8 * pre.length + 56 + 8 * fr.body.length := by
+    simp only [frameBytes, List.length_append, length_toBE]; omega
+  have hnn : ¬ (((8 * fr.body.length : Nat) : Int) < 0) := by omega
+  simp only [w0, w1, w2, w3, w4, w5, w6, w7, w8, w9, w10]
+  rw [show [h.id, 0, h.protectionAbsent, h.profile, h.sfIndex, h.privateBit, h.chanConfig, h.original, h.home] = keyOf h from rfl,
+    if_neg hk, hleft, if_neg hnn, Int.toNat_natCast, hskip, hlen]
+  simp only [crcBits, Int.natCast_mul, Int.cast_ofNat_Int]
+
+
+theorem align_aligned (n : Nat) : (⟨0, 8 * n⟩ : R).align = ⟨0, 8 * n⟩ := by
+  simp only [R.align]; congr 1; omega
+
+theorem syncLoop_at_frame (pre more : Bytes) (W k : Nat) (hW : W / 2 ^ 44 = 0xFFF) :
+    syncLoop (pre ++ (toBE 7 W ++ more)) (k + 2) ⟨0, 8 * pre.length⟩ = some ⟨0, 8 * pre.length + 12⟩ := by
+  have e0 := bits_hdr pre more W 0 8 (by decide) (by decide)
+  have e1 := bits_hdr pre more W 8 4 (by decide) (by decide)
+  have v0 : W / 2 ^ (56 - 0 - 8) % 2 ^ 8 = 0xff := by omega
+  have v1 : W / 2 ^ (56 - 8 - 4) % 2 ^ 4 = 0xf := by omega
+  rw [v0] at e0; rw [v1] at e1
+  simp only [Nat.add_zero, Nat.zero_add, Nat.reduceAdd] at e0 e1
+  simp only [syncLoop, e0, e1, if_true]
+
+theorem sync_at_frame (pre more : Bytes) (W m : Nat) (hm : 2 ≤ m) (hW : W / 2 ^ 44 = 0xFFF) :
+    sync (pre ++ (toBE 7 W ++ more)) ⟨0, 8 * pre.length⟩ m = some ⟨0, 8 * pre.length + 12⟩ := by
+  unfold sync
+  rw [align_aligned, show max m 2 = (m - 2) + 2 by omega]
+  exact syncLoop_at_frame pre more W _ hW
+
+theorem sync_at_eof (f : Bytes) (m : Nat) : sync f ⟨0, 8 * f.length⟩ m = none := by
+  unfold sync
+  rw [align_aligned, show max m 2 = (max m 2 - 2) + 2 by omega]
+  have : R.bits f ⟨0, 8 * f.length⟩ 8 = none := by
+    unfold R.bits
+    simp
+  simp only [syncLoop, this]
+
+theorem headerWord_sync (h : Adts) (ok : h.OK) (fr : Frame) (hfr : fr.OK h.protectionAbsent) :
+    headerWord h fr / 2 ^ 44 = 0xFFF := by
+  obtain ⟨hid, hpa, hpr, hsf, hpv, hcc, hor, hho, _, _⟩ := ok
+  obtain ⟨hcb, hbf, hnb, hfl, hcrc⟩ := hfr
+  unfold headerWord; omega
+
+
+def samplesOf (frs : List Frame) : Nat := (frs.map fun fr => (fr.nordbif + 1) * 1024).sum
+def payloadOf (pa : Nat) (frs : List Frame) : Int :=
+  (frs.map fun fr => (8 * (fr.body.length : Int) - crcBits pa fr.nordbif)).sum
+
+theorem framesLoop_frames (h : Adts) (ok : h.OK) : ∀ (frs : List Frame) (fr : Frame),
+    (∀ x ∈ fr :: frs, x.OK h.protectionAbsent) → ∀ (pre : Bytes) (s : Stream) (n : Nat), (fr :: frs).length ≤ n →
+    s.r = ⟨0, 8 * pre.length + 12⟩ → (s.key = none ∨ s.key = some (keyOf h)) →
+    framesLoop (pre ++ (fr :: frs).flatMap (frameBytes h)) n s =
+      { r := ⟨0, 8 * (pre ++ (fr :: frs).flatMap (frameBytes h)).length⟩, key := some (keyOf h), offset := s.offset,
+        parsedFrames := s.parsedFrames + (fr :: frs).length, samples := s.samples + samplesOf (fr :: frs),
+        payloadBits := s.payloadBits + payloadOf h.protectionAbsent (fr :: frs),
+        lastBits := 8 * (pre ++ (fr :: frs).flatMap (frameBytes h)).length } := by
+  intro frs
+  induction frs with
+  | nil =>
+    intro fr hok pre s n hn hr hkey
+    obtain ⟨n', rfl⟩ : ∃ n', n = n' + 1 := ⟨n - 1, by simp at hn; omega⟩
+    have hfr := hok fr List.mem_cons_self
+    have hp := parseFrame_frame h ok fr hfr pre [] s hr hkey
+    simp only [List.flatMap_cons, List.flatMap_nil]
+    rw [framesLoop, hp]
+    simp only
+    have : 8 * (pre ++ frameBytes h fr).length = 8 * (pre ++ (frameBytes h fr ++ [])).length := by simp
+    rw [this, sync_at_eof]
+    simp [samplesOf, payloadOf]
+  | cons fr2 frs ih =>
+    intro fr hok pre s n hn hr hkey
+    obtain ⟨n', rfl⟩ : ∃ n', n = n' + 1 := ⟨n - 1, by simp at hn; omega⟩
+    have hfr := hok fr List.mem_cons_self
+    have hfr2 := hok fr2 (List.mem_cons_of_mem _ List.mem_cons_self)
+    have hok' : ∀ x ∈ fr2 :: frs, x.OK h.protectionAbsent := fun x hx => hok x (List.mem_cons_of_mem _ hx)
+    have hp := parseFrame_frame h ok fr hfr pre ((fr2 :: frs).flatMap (frameBytes h)) s hr hkey
+    have hf : pre ++ (fr :: fr2 :: frs).flatMap (frameBytes h) = pre ++ (frameBytes h fr ++ (fr2 :: frs).flatMap (frameBytes h)) := by
+      simp only [List.flatMap_cons]
+    have hf2 : pre ++ (frameBytes h fr ++ (fr2 :: frs).flatMap (frameBytes h)) =
+        (pre ++ frameBytes h fr) ++ (toBE 7 (headerWord h fr2) ++ (fr2.body ++ frs.flatMap (frameBytes h))) := by
+      simp [frameBytes]
+    have hs := sync_at_frame (pre ++ frameBytes h fr) (fr2.body ++ frs.flatMap (frameBytes h)) (headerWord h fr2) 10 (by decide)
+      (headerWord_sync h ok fr2 hfr2)
+    rw [hf, framesLoop, hp]
+    simp only
+    rw [hf2, hs]
+    simp only
+    have hf3 : (pre ++ frameBytes h fr) ++ (toBE 7 (headerWord h fr2) ++ (fr2.body ++ frs.flatMap (frameBytes h))) =
+        (pre ++ frameBytes h fr) ++ (fr2 :: frs).flatMap (frameBytes h) := by
+      simp [frameBytes]
+    rw [hf3, ih fr2 hok' (pre ++ frameBytes h fr) _ n' (by simp at hn ⊢; omega) rfl (Or.inr rfl)]
+    simp only [samplesOf, payloadOf, List.map_cons, List.sum_cons, List.length_cons, List.flatMap_cons, List.append_assoc]
+    congr 1 <;> omega
+
+
+theorem payloadOf_eq (h : Adts) (ok : h.OK) : payloadOf h.protectionAbsent h.frames = rawBits h := by
+  unfold payloadOf rawBits
+  congr 1
+  apply List.map_congr_left
+  intro fr hfr
+  have hpa := ok.2.1
+  have hnb := (ok.2.2.2.2.2.2.2.2.2 fr hfr).2.2.1
+  unfold crcBits crcBytes
+  by_cases h0 : h.protectionAbsent = 0
+  · have h1 : ¬ (h.protectionAbsent = 1) := by omega
+    by_cases hn : fr.nordbif = 0
+    · simp [h0, hn]
+    · simp only [h0, h1, hn, if_true, if_false, ne_eq, not_false_eq_true]
+      push_cast
+      omega
+  · have h1 : h.protectionAbsent = 1 := by omega
+    simp [h1]
+
+theorem freqs_rows : ∀ i < 13, Generated.aacFreqs[i]? = some (Spec.Tables.aacFreqs.getD i 0) ∧ Spec.Tables.aacFreqs.getD i 0 ≠ 0 := by
+  decide
+
+theorem channels_rows : ∀ c < 8, (if c = 7 then 8 else if c > 7 then 0 else c) = channelsOf c := by decide
+
+theorem parse_adts (h : Adts) (ok : h.OK) (h100 : h.frames.length ≤ 100) :
+    parse (build h) = .ok { expected h with length := lengthEstimate h } := by
+  have ok' := ok
+  obtain ⟨hid, hpa, hpr, hsf, hpv, hcc, hor, hho, h3, hfrs⟩ := ok'
+  obtain ⟨fr, frs, hfl⟩ : ∃ fr frs, h.frames = fr :: frs := by
+    cases hl : h.frames with
+    | nil => rw [hl] at h3; simp at h3
+    | cons a b => exact ⟨a, b, rfl⟩
+  have hfr := hfrs fr (by rw [hfl]; exact List.mem_cons_self)
+  have hb : build h = [] ++ (fr :: frs).flatMap (frameBytes h) := by simp [build, hfl]
+  have hb2 : build h = [] ++ (toBE 7 (headerWord h fr) ++ (fr.body ++ frs.flatMap (frameBytes h))) := by
+    simp [build, hfl, frameBytes]
+  have hsync : sync (build h) ⟨0, 0⟩ 512 = some ⟨0, 12⟩ := by
+    have := sync_at_frame [] (fr.body ++ frs.flatMap (frameBytes h)) (headerWord h fr) 512 (by decide) (headerWord_sync h ok fr hfr)
+    rw [← hb2] at this
+    exact this
+  have hloop := framesLoop_frames h ok frs fr (by rw [← hfl]; exact hfrs) []
+    { r := ⟨0, 12⟩, key := none, offset := 0, parsedFrames := 0, samples := 0, payloadBits := 0, lastBits := 0 } 100
+    (by rw [← hfl]; exact h100) rfl (Or.inl rfl)
+  rw [← hb, ← hfl] at hloop
+  -- the first bytes are neither an ID3 tag nor "ADIF"
+  have hbl : 7 ≤ (build h).length := by rw [hb2]; simp
+  have hfirst : ∃ t, build h = 0xff :: t := by
+    have hw := headerWord_sync h ok fr hfr
+    have : toBE 7 (headerWord h fr) = 0xff :: (toBE 7 (headerWord h fr)).tail := by
+      have hlt : headerWord h fr / 2 ^ 48 % 256 = 255 := by omega
+      simp only [toBE, toLE, List.reverse_cons, List.reverse_nil, List.nil_append, List.cons_append, List.tail_cons]
+      congr 1
+      have : headerWord h fr / 256 / 256 / 256 / 256 / 256 / 256 % 256 = 255 := by omega
+      rw [this]; rfl
+    exact ⟨_, by rw [hb2, this]; rfl⟩
+  obtain ⟨t, ht⟩ := hfirst
+  have hnid : startsWith (readAt (build h) 0 10) magicID3 = false := by
+    rw [ht]; simp [startsWith, readAt, magicID3]
+  have hnadif : ¬ (readAt (build h) 0 4 = magicADIF) := by
+    rw [ht]; simp [readAt, magicADIF]
+  obtain ⟨hrow, hnz⟩ := freqs_rows h.sfIndex hsf
+  have hsamp : samplesOf h.frames ≠ 0 := by
+    rw [hfl]; simp [samplesOf]
+  unfold parse
+  simp only [hnid, Bool.false_eq_true, if_false, hnadif, parseAdts, tries, findStream, hsync, Nat.sub_self, Nat.zero_div,
+    Nat.zero_add, hloop]
+  have h3' : h.frames.length ≥ 3 := h3
+  simp only [h3', if_true, Option.getD_some, keyOf, List.getD_cons_succ, List.getD_cons_zero, hrow, channels_rows h.chanConfig hcc]
+  have hpf : ¬ (h.frames.length = 0) := by omega
+  simp only [hpf, if_false, hsamp, hnz, ne_eq, not_false_eq_true, if_true, expected, lengthEstimate, payloadOf_eq h ok, rate,
+    List.nil_append, Spec.Aac.samples, samplesOf]
+  have hs2 : ¬ ((List.map (fun fr => (fr.nordbif + 1) * 1024) h.frames).sum = 0) := hsamp
+  have hd : 8 * (build h).length / 8 = (build h).length := by omega
+  simp only [hs2, if_false, Int.zero_add, hd, Nat.add_zero, Int.natCast_one]
 
 end Mutagen.Info.Aac
